@@ -532,4 +532,191 @@ theorem rnd_err_gen (q : Rat) : (rnd q - q).abs ≤ q.abs / pow2 53 + pow2 (-107
   · have := rnd_err_rel h; grind
   · have := rnd_err_sub (show q.abs < pow2 (-1022) by grind); grind
 
+/-! ### 5. grid points, monotonicity, exactness (item 5) -/
+
+theorem pow2_split {K e : Int} (h : e ≤ K) :
+    pow2 K = ((2 ^ (K - e).toNat : Nat) : Rat) * pow2 e := by
+  have h1 := pow2_add (K - e) e
+  rw [show K - e + e = K by omega] at h1
+  rw [h1, ← pow2_natCast, Int.toNat_of_nonneg (by omega)]
+
+/-- a multiple of `2^K`, `K ≥ ulpE a`, is a grid point: written on the grid of `a` -/
+theorem grid_eq {a : Rat} {k : Nat} {K : Int} (hK : ulpE a ≤ K) :
+    (k : Rat) * pow2 K = ((k * 2 ^ (K - ulpE a).toNat : Nat) : Rat) * pow2 (ulpE a) := by
+  rw [pow2_split hK, Rat.natCast_mul]; grind
+
+/-- rounding never crosses a grid point above -/
+theorem rndPos_le_grid {a : Rat} {k : Nat} {K : Int} (hK : ulpE a ≤ K)
+    (h : a ≤ (k : Rat) * pow2 K) : rndPos a ≤ (k : Rat) * pow2 K := by
+  have hP := pow2_pos (ulpE a)
+  rw [grid_eq hK] at h ⊢
+  have hx : a / pow2 (ulpE a) ≤ ((k * 2 ^ (K - ulpE a).toNat : Nat) : Rat) := by
+    rw [div_le_iff hP]; exact h
+  have := Rat.natCast_le_natCast.2 (roundHalfEven_le hx)
+  exact Rat.mul_le_mul_of_nonneg_right this (Rat.le_of_lt hP)
+
+/-- rounding never crosses a grid point below -/
+theorem grid_le_rndPos {a : Rat} {k : Nat} {K : Int} (hK : ulpE a ≤ K)
+    (h : (k : Rat) * pow2 K ≤ a) : (k : Rat) * pow2 K ≤ rndPos a := by
+  have hP := pow2_pos (ulpE a)
+  rw [grid_eq hK] at h ⊢
+  have hx : ((k * 2 ^ (K - ulpE a).toNat : Nat) : Rat) ≤ a / pow2 (ulpE a) := by
+    rw [le_div_iff hP]; exact h
+  have := Rat.natCast_le_natCast.2 (le_roundHalfEven hx)
+  exact Rat.mul_le_mul_of_nonneg_right this (Rat.le_of_lt hP)
+
+/-- grid points round to themselves -/
+theorem rndPos_grid {a : Rat} {k : Nat} {K : Int} (hK : ulpE a ≤ K)
+    (h : a = (k : Rat) * pow2 K) : rndPos a = a := by
+  have h1 := rndPos_le_grid hK (by rw [← h]; exact Rat.le_refl)
+  have h2 := grid_le_rndPos hK (by rw [← h]; exact Rat.le_refl)
+  rw [← h] at h1 h2
+  exact Rat.le_antisymm h1 h2
+
+theorem div_le_div_right {a b c : Rat} (hc : 0 < c) (h : a ≤ b) : a / c ≤ b / c := by
+  rw [div_le_iff hc, Rat.div_mul_cancel (by grind)]; exact h
+
+theorem rndPos_mono_pos {a b : Rat} (ha : 0 < a) (hab : a ≤ b) : rndPos a ≤ rndPos b := by
+  have hb : 0 < b := by grind
+  have hm := ulpE_mono ha hab
+  by_cases he : ulpE a = ulpE b
+  · unfold rndPos
+    rw [he]
+    have hP := pow2_pos (ulpE b)
+    have := Rat.natCast_le_natCast.2 (roundHalfEven_mono (div_le_div_right hP hab))
+    exact Rat.mul_le_mul_of_nonneg_right this (Rat.le_of_lt hP)
+  · obtain ⟨La, a1, a2, ea⟩ := ulpE_spec ha
+    obtain ⟨Lb, b1, b2, eb⟩ := ulpE_spec hb
+    have hga := ulpE_ge a
+    -- the power of two `2^Lb` separates a and b and lies on both grids
+    have hLb : ulpE b = Lb - 52 := by rw [eb]; split <;> omega
+    have hLab : La + 1 ≤ Lb := by
+      rw [ea, eb] at hm he; split at he <;> split at he <;> omega
+    have hsep : a ≤ ((1 : Nat) : Rat) * pow2 Lb := by
+      have := pow2_mono hLab; simp; grind
+    have hsep' : ((1 : Nat) : Rat) * pow2 Lb ≤ b := by simp; exact b1
+    exact Rat.le_trans (rndPos_le_grid (by omega) hsep) (grid_le_rndPos (by omega) hsep')
+
+theorem rndPos_mono {a b : Rat} (ha : 0 ≤ a) (hab : a ≤ b) : rndPos a ≤ rndPos b := by
+  by_cases h0 : a = 0
+  · subst h0; rw [rndPos_zero]; exact rndPos_nonneg b
+  · exact rndPos_mono_pos (by grind) hab
+
+/-- item 5: rounding is monotone (on all of ℚ, before the overflow test) -/
+theorem rnd_mono {p q : Rat} (h : p ≤ q) : rnd p ≤ rnd q := by
+  unfold rnd
+  by_cases hp : p < 0 <;> by_cases hq : q < 0
+  · rw [if_pos hp, if_pos hq]
+    have := rndPos_mono (a := -q) (b := -p) (by grind) (by grind); grind
+  · rw [if_pos hp, if_neg hq]
+    have := rndPos_nonneg (-p); have := rndPos_nonneg q; grind
+  · exfalso; grind
+  · rw [if_neg hp, if_neg hq]; exact rndPos_mono (by grind) h
+
+theorem rnd_nonneg {q : Rat} (h : 0 ≤ q) : 0 ≤ rnd q := by
+  have := rnd_mono h; rwa [rnd_zero] at this
+
+theorem rnd_nonpos {q : Rat} (h : q ≤ 0) : rnd q ≤ 0 := by
+  have := rnd_mono h; rwa [rnd_zero] at this
+
+/-! ### 5b. representable values -/
+
+theorem pow2_53 : pow2 53 = ((2 ^ 53 : Nat) : Rat) := pow2_natCast 53
+
+theorem ulpE_grid_le {k : Nat} {K : Int} (hk : 0 < k) (hk' : k < 2 ^ 53) (hK : -1074 ≤ K) :
+    ulpE ((k : Rat) * pow2 K) ≤ K := by
+  have hP := pow2_pos K
+  have hkr : (0 : Rat) < (k : Rat) := Rat.natCast_pos.2 hk
+  have hpos : 0 < (k : Rat) * pow2 K := Rat.mul_pos hkr hP
+  obtain ⟨L, a1, a2, e⟩ := ulpE_spec hpos
+  have hlt : (k : Rat) * pow2 K < pow2 (53 + K) := by
+    rw [pow2_add, pow2_53]
+    exact Rat.mul_lt_mul_of_pos_right (Rat.natCast_lt_natCast.2 hk') hP
+  have : L < 53 + K := pow2_lt_iff.1 (by grind)
+  rw [e]; split <;> omega
+
+/-- `k · 2^K` with `k < 2^53`, `K ≥ -1074` rounds to itself -/
+theorem rndPos_rep {k : Nat} {K : Int} (hk' : k < 2 ^ 53) (hK : -1074 ≤ K) :
+    rndPos ((k : Rat) * pow2 K) = (k : Rat) * pow2 K := by
+  by_cases hk : k = 0
+  · subst hk; simp [rndPos_zero]
+  · exact rndPos_grid (ulpE_grid_le (by omega) hk' hK) rfl
+
+/-- exactly representable finite values: `m · 2^K`, `|m| < 2^53`, `K ≥ -1074` -/
+def Rep (v : Rat) : Prop := ∃ (m : Int) (K : Int), m.natAbs < 2 ^ 53 ∧ -1074 ≤ K ∧ v = (m : Rat) * pow2 K
+
+theorem Rep.neg {v : Rat} (h : Rep v) : Rep (-v) := by
+  obtain ⟨m, K, h1, h2, h3⟩ := h
+  exact ⟨-m, K, by omega, h2, by rw [h3, Rat.intCast_neg, Rat.neg_mul]⟩
+
+theorem rep_natCast_mul {k : Nat} {K : Int} (hk : k < 2 ^ 53) (hK : -1074 ≤ K) :
+    Rep ((k : Rat) * pow2 K) :=
+  ⟨k, K, by omega, hK, by rw [Rat.intCast_natCast]⟩
+
+/-- item 5: representable values round to themselves -/
+theorem rnd_of_rep {v : Rat} (h : Rep v) : rnd v = v := by
+  obtain ⟨m, K, h1, h2, h3⟩ := h
+  subst h3
+  by_cases hm : 0 ≤ m
+  · obtain ⟨k, rfl⟩ := Int.eq_ofNat_of_zero_le hm
+    have hP := pow2_pos K
+    rw [Rat.intCast_natCast, rnd_of_nonneg (Rat.mul_nonneg Rat.natCast_nonneg (Rat.le_of_lt hP))]
+    exact rndPos_rep (by omega) h2
+  · obtain ⟨k, hk⟩ := Int.eq_ofNat_of_zero_le (show 0 ≤ -m by omega)
+    have hm' : m = -(k : Int) := by omega
+    subst hm'
+    have hP := pow2_pos K
+    rw [Rat.intCast_neg, Rat.neg_mul, rnd_neg, Rat.intCast_natCast,
+      rnd_of_nonneg (Rat.mul_nonneg Rat.natCast_nonneg (Rat.le_of_lt hP)),
+      rndPos_rep (by omega) h2]
+
+theorem rep_pow2 {K : Int} (hK : -1074 ≤ K) : Rep (pow2 K) :=
+  ⟨1, K, by decide, hK, by simp⟩
+
+theorem rep_intCast {i : Int} (h : i.natAbs ≤ 2 ^ 53) : Rep (i : Rat) := by
+  by_cases h' : i.natAbs < 2 ^ 53
+  · exact ⟨i, 0, h', by omega, by rw [pow2_zero, Rat.mul_one]⟩
+  · have h2 : i = 2 ^ 53 ∨ i = -(2 ^ 53) := by omega
+    rcases h2 with rfl | rfl
+    · have := rep_pow2 (K := 53) (by omega); rw [pow2_53] at this; exact_mod_cast this
+    · have := (rep_pow2 (K := 53) (by omega)).neg; rw [pow2_53] at this; exact_mod_cast this
+
+/-- the result of rounding is representable -/
+theorem rep_rndPos {a : Rat} (ha : 0 < a) : Rep (rndPos a) := by
+  obtain ⟨L, a1, a2, e⟩ := ulpE_spec ha
+  have hge := ulpE_ge a
+  have hP := pow2_pos (ulpE a)
+  have hle : roundHalfEven (a / pow2 (ulpE a)) ≤ 2 ^ 53 := by
+    apply roundHalfEven_le
+    rw [div_le_iff hP, ← pow2_53, ← pow2_add]
+    have : pow2 (L + 1) ≤ pow2 (53 + ulpE a) := pow2_mono (by rw [e]; split <;> omega)
+    grind
+  unfold rndPos
+  by_cases hlt : roundHalfEven (a / pow2 (ulpE a)) < 2 ^ 53
+  · exact rep_natCast_mul hlt hge
+  · have : roundHalfEven (a / pow2 (ulpE a)) = 2 ^ 53 := by omega
+    rw [this, ← pow2_53, ← pow2_add]
+    exact rep_pow2 (by omega)
+
+theorem rep_rnd (q : Rat) : Rep (rnd q) := by
+  by_cases h0 : q = 0
+  · subst h0; rw [rnd_zero]; exact ⟨0, 0, by decide, by omega, by simp⟩
+  · unfold rnd
+    split
+    · exact (rep_rndPos (by grind)).neg
+    · exact rep_rndPos (by grind)
+
+theorem rnd_idem (q : Rat) : rnd (rnd q) = rnd q := rnd_of_rep (rep_rnd q)
+
+/-- bounds by representable values survive rounding -/
+theorem rnd_le_of_le_rep {q v : Rat} (hv : Rep v) (h : q ≤ v) : rnd q ≤ v := by
+  have := rnd_mono h; rwa [rnd_of_rep hv] at this
+
+theorem le_rnd_of_rep_le {q v : Rat} (hv : Rep v) (h : v ≤ q) : v ≤ rnd q := by
+  have := rnd_mono h; rwa [rnd_of_rep hv] at this
+
+theorem rnd_abs_le_of_rep {q v : Rat} (hv : Rep v) (h : q.abs ≤ v) : (rnd q).abs ≤ v := by
+  rw [abs_le_iff] at h ⊢
+  exact ⟨le_rnd_of_rep_le hv.neg h.1, rnd_le_of_le_rep hv h.2⟩
+
 end ScionTime.F64
